@@ -177,6 +177,12 @@ class Ownership:
                 if isinstance(c, ast.Constant) and c.value is True:
                     return {FRESH}
                 return {READONLY}
+            if isinstance(e.func, ast.Attribute) and name == "astype" and dotted(e.func.value) not in (
+                    "np", "xp", "cp", "numpy", "cupy"):
+                c = kw(e, "copy")
+                if isinstance(c, ast.Constant) and c.value is False:
+                    # astype(..., copy=False) returns the array itself when the dtype already matches
+                    return rec(e.func.value) | {FRESH}
             if isinstance(e.func, ast.Attribute) and name in FRESH_METHODS and fn not in ("np.copy",):
                 root = dotted(e.func.value)
                 if root not in ("np", "xp", "cp", "numpy", "cupy"):
